@@ -147,30 +147,23 @@ def range_contract(spec, values):
         return f"last value {values[-1]} != hi {spec['hi']}"
     if not endpoint and steps > 1 and not values[-1] < spec["hi"]:
         return f"endpoint excluded but last value {values[-1]} >= hi"
-    if steps > 2:
-        if spec.get("scale", "linear") == "linear":
-            ds = [values[i + 1] - values[i] for i in range(steps - 1)]
-            if max(ds) - min(ds) > 1e-9 * max(1.0, abs(spec["hi"] - spec["lo"])):
-                return "linear range is not evenly spaced"
+    # closed form (numpy's linspace / geomspace convention): the interval is divided into steps-1 parts when the upper
+    # bound is included and into `steps` parts when it is excluded
+    div = (steps - 1) if endpoint else steps
+    for i, v in enumerate(values):
+        if div == 0:
+            want = spec["lo"]
+        elif spec.get("scale", "linear") == "linear":
+            want = spec["lo"] + (spec["hi"] - spec["lo"]) * i / div
         else:
-            rs = [values[i + 1] / values[i] for i in range(steps - 1)]
-            if max(rs) - min(rs) > 1e-9 * max(rs):
-                return "log range has no constant ratio"
+            want = spec["lo"] * (spec["hi"] / spec["lo"]) ** (i / div)
+        if not math.isclose(v, want, rel_tol=1e-9, abs_tol=1e-12):
+            return f"value {i} of the range is {v}, the documented {spec.get('scale', 'linear')} spacing gives {want}"
     return None
 
 
-def run(tier: str) -> int:
-    rep = core.Report(PROP, tier)
-    rnd = core.rng(PROP)
-    pipegen.setup()
-    try:
-        c01.translate()
-    except Exception as exc:
-        rep.add_broken(f"translator C01 (precedence table) failed: {exc!r}")
-    core.prove(rep, PROP, thorough=(tier == "thorough"))
-    n_cases = 500 if tier == "quick" else 5000
-    stats = {"cases": 0, "kinds": {}, "modes": {}, "specs": {}, "real_outcomes": {}, "elements_compared": 0, "ranges_checked": 0,
-             "surrounded": 0}
+def sweep_cases(rep, rnd, n_cases, stats):
+    """Generated pipelines with one sweep node: real run vs the model, element by element. Returns samples."""
     cases, reqs = [], [{"m": "c01.setup", "id": "setup", "resolveTable": c01.DOC_TABLE}]
     for i in range(n_cases):
         node, model, ctx0, info = gen_sweep(rnd)
@@ -285,6 +278,22 @@ def run(tier: str) -> int:
                 rep.add_violation(f"sweep-failing-node:{tags}", f"node {real['started'] - 1} raised, documented failure at node {idx} ({err})", pub)
         if len(samples) < 5 and i % 97 == 0:
             samples.append({"nodes": nodes, "initial_context": ctx0, "real": real["data"]})
+    return samples
+
+
+def run(tier: str) -> int:
+    rep = core.Report(PROP, tier)
+    rnd = core.rng(PROP)
+    pipegen.setup()
+    try:
+        c01.translate()
+    except Exception as exc:
+        rep.add_broken(f"translator C01 (precedence table) failed: {exc!r}")
+    core.prove(rep, PROP, thorough=(tier == "thorough"))
+    n_cases = 500 if tier == "quick" else 5000
+    stats = {"cases": 0, "kinds": {}, "modes": {}, "specs": {}, "real_outcomes": {}, "elements_compared": 0, "ranges_checked": 0,
+             "surrounded": 0}
+    samples = sweep_cases(rep, rnd, n_cases, stats)
     rep.coverage.update({
         "evaluations": stats["cases"],
         "distinct_nontrivial": stats["cases"],
